@@ -230,7 +230,47 @@ def judge_eq(pid, r, opl, gol, lel, metal, findings, breaks, cov, rec, seed):
     cov["distinct_nontrivial"] += len(distinct)
 
 
-JUDGES = {"dec": judge_dec, "eq": judge_eq}
+def judge_mon(pid, r, opl, gol, lel, metal, findings, breaks, cov, rec, seed):
+    """Histories of controlled executions of the real code, judged by the Lean
+    monitors (`mon` op): the model side prints `ok` or `viol <sig> ...`; this
+    property's signatures are the ones prefixed with its id.  HARNESS: lines
+    mean the scenario itself went wrong (reported for every property)."""
+    n = lines_of(opl, gol, lel)
+    rec["ops"] = n
+    cats, distinct = {}, set()
+    steps = 0
+    for i in range(n):
+        meta = metal[i] if i < len(metal) else ""
+        cat = meta.split(" ")[0] if meta else "?"
+        cats[cat] = cats.get(cat, 0) + 1
+        m = re.search(r"steps=(\d+)", meta)
+        if m:
+            steps += int(m.group(1))
+        le = lel[i] if i < len(lel) else "<missing>"
+        cov["evaluations"] += 1
+        if le == "ok":
+            distinct.add(hash(opl[i]))
+            if i % max(1, n // 4) == 0:
+                add_sample(cov, dict(history=opl[i][:600], verdict="ok", meta=meta))
+            continue
+        if not le.startswith("viol"):
+            breaks.append(dict(what=f"monitor driver failed on a history of mode {r['mode']}: {le[:200]}"))
+            continue
+        mine = [v for v in le.split(" ")[1:] if v.startswith(pid + ":") or v.startswith("HARNESS:")]
+        if not mine:
+            distinct.add(hash(opl[i]))
+            continue
+        for v in mine:
+            findings.append(dict(sig=f"{r['mode']}:{cat}:{v}", what=f"{v} on a {cat} scenario of mode {r['mode']}",
+                                 data=dict(op=opl[i], verdict=le, meta=meta, mode=r["mode"], seed=seed,
+                                           env=r.get("env", {}))))
+    rec["categories"] = cats
+    rec["scheduling_steps"] = steps
+    cov["distinct_nontrivial"] += len(distinct)
+    cov["traces_validated_against_impl"] = cov.get("traces_validated_against_impl", 0) + n
+
+
+JUDGES = {"dec": judge_dec, "eq": judge_eq, "mon": judge_mon}
 
 # ---------------------------------------------------------------- property table
 
@@ -269,3 +309,20 @@ prop("C05",
      runs=[dict(mode="dec", n=(4000, 60000), judge="dec")],
      rule=RULE_DEC,
      assumptions=["absence of panics, allocation bounds and hangs are runtime behaviour: observed by the run, not proved"])
+
+RULE_SESSION = ("two transports of the library talk over a simulated connection inside a synctest bubble; every goroutine of "
+                "the (instrumented copy of the) package parks at every channel operation / select / close / go statement and "
+                "a controller releases one at a time (seeded random or PCT-style priorities), so each scenario is one "
+                "reproducible interleaving; scenarios mix 1-5 concurrent calls, compressed calls and notifications in both "
+                "directions with cancellations, timeouts (virtual time), external / handler / repeated Close, connection cuts "
+                "and payloads around the frame limit; the totally ordered observable history is judged by the Lean monitors; "
+                "distinct = distinct histories on which every monitor of this property holds")
+
+SESSION = dict(mode="session", n=(900, 12000), judge="mon")
+
+for _pid, _extra in [("C01", []), ("C03", [dict(mode="wire", n=(1500, 20000), judge="eq")]), ("C07", []), ("C08", []),
+                     ("C09", []), ("C10", []), ("C11", []), ("C12", []), ("C13", []), ("C20", [])]:
+    prop(_pid, lean=[f"FmpRpc.Tie.{_pid}", f"FmpRpc.Props.{_pid}"], runs=[dict(SESSION)] + _extra,
+         rule=RULE_SESSION + ((" || " + RULE_WIRE) if _extra else ""),
+         assumptions=["Go channel / select / once / mutex semantics and the memory model at synchronisation granularity are modelled",
+                      "testing/synctest quiescence detection; the instrumenter only adds yield points and swaps sync primitives for equivalent channel-based ones"])
